@@ -888,7 +888,7 @@ def run(chk, replay=None):
     chk.cov["cases"] = len(lines)
 
     concrete = [v for v in chk.violations if not v[2]]
-    if broken and not concrete and not chk.known_hit:
+    if broken and not concrete:
         for b in broken[:3]:
             chk.violation(b, {"broken": b, "searched": f"{len(lines)} model objects judged by the property's own oracle "
                               "(model = interpreter / mean of defined outputs, label < classes, confidence range, accuracy "
